@@ -181,6 +181,7 @@ func (h *Handler6) ProcessPacket(pkt packet.Frame) (err error) {
 			ch := h.closeChan
 			h.closeChan = make(chan bool)
 			close(ch) // this will cause all spoof loop select to wakeup
+			verifEmit("ndp.wake")
 		}
 
 		repeat++
@@ -207,6 +208,7 @@ func (h *Handler6) ProcessPacket(pkt packet.Frame) (err error) {
 
 		h.Lock()
 		router, _ := h.findOrCreateRouter(mac, ip6Frame.Src())
+		verifEmit("ndp.learn", router.Addr)
 		router.ManagedFlag = frame.ManagedConfiguration()
 		router.OtherCondigFlag = frame.OtherConfiguration()
 		router.Preference = frame.Preference()
